@@ -540,9 +540,9 @@ func (r *run) build(st step, cur, other *listed) (body []byte, raw string, sub *
 		if cur != nil {
 			spec.retractJTI = cur.info.JTI
 		}
-	} else {
-		spec.creds = []string{r.creds[s]}
 	}
+	// a registration carries one credential per input descriptor; o decides their order in the presentation
+	var member, registration, extra any = r.creds[s], forgeSelfAttested(id.did, nil), nil
 	cls := d
 	if c != "" { // the concrete realisation of the abstract defect class
 		cls = c
@@ -572,7 +572,7 @@ func (r *run) build(st step, cur, other *listed) (body []byte, raw string, sub *
 	case "ret-nojti":
 		spec.retractJTI = ""
 	case "ret-creds":
-		spec.creds = []string{r.creds[s]}
+		spec.creds = []any{r.creds[s]}
 	case "ldp":
 		b := ldpPresentation(id)
 		return b, string(b), &submitted{raw: string(b), s: s, kind: kind, e: e, d: d}, nil
@@ -586,28 +586,37 @@ func (r *run) build(st step, cur, other *listed) (body []byte, raw string, sub *
 		spec.noExp = true
 	case "toolong":
 		spec.exp = time.Now().Add(time.Duration(maxValiditySecs+900) * time.Second)
-		if kind == "reg" { // the credential outlives it, so only the maximum validity is broken
-			spec.creds = []string{forgeVC(r.l.ppl.authority, r.l.ppl.authority, id.did, credentialType, time.Now().Add(3*time.Hour))}
-		}
+		// the credential outlives it, so only the maximum validity is broken
+		member = forgeVC(r.l.ppl.authority, r.l.ppl.authority, id.did, credentialType, time.Now().Add(3*time.Hour))
 	case "expired":
 		spec.exp = time.Now().Add(-2 * time.Minute)
 	case "method":
 		kid := r.l.ppl.subjKey[s]
 		spec.signer, spec.key, spec.jti = kid, kid.key, kid.did+"#"+freshID()
-		if kind == "reg" {
-			spec.creds = []string{r.credsKey[s]}
-		}
+		member, registration = r.credsKey[s], forgeSelfAttested(kid.did, nil)
 	case "outlive":
+		// the presentation outlives the member credential
 		spec.exp = time.Now().Add(20 * time.Minute).Truncate(time.Second)
-		spec.creds = []string{forgeVC(r.l.ppl.authority, r.l.ppl.authority, id.did, credentialType, time.Now().Add(10*time.Minute))}
+		member = forgeVC(r.l.ppl.authority, r.l.ppl.authority, id.did, credentialType, time.Now().Add(10*time.Minute))
+	case "outlive-self":
+		// the presentation outlives the holder's own registration credential
+		spec.exp = time.Now().Add(20 * time.Minute).Truncate(time.Second)
+		t := time.Now().Add(10 * time.Minute)
+		registration = forgeSelfAttested(id.did, &t)
 	case "missing":
-		spec.creds = nil
+		member, registration = nil, nil
+	case "missing-member":
+		member = nil
+	case "missing-registration":
+		registration = nil
 	case "surplus":
-		spec.creds = []string{r.creds[s], r.otherVC[s]}
+		extra = r.otherVC[s]
+	case "surplus-registration":
+		extra = forgeSelfAttested(id.did, nil)
 	case "nonmatch":
-		spec.creds = []string{r.otherVC[s]}
+		member = r.otherVC[s]
 	case "nonmatch-issuer":
-		spec.creds = []string{forgeVC(r.l.ppl.rogue, r.l.ppl.rogue, id.did, credentialType, time.Now().Add(50*time.Minute))}
+		member = forgeVC(r.l.ppl.rogue, r.l.ppl.rogue, id.did, credentialType, time.Now().Add(50*time.Minute))
 	case "badsig":
 	case "otherkey":
 		for n, o := range r.l.ppl.subj {
@@ -617,9 +626,20 @@ func (r *run) build(st step, cur, other *listed) (body []byte, raw string, sub *
 			}
 		}
 	case "vcsig":
-		spec.creds = []string{forgeVC(r.l.ppl.authority, r.l.ppl.rogue, id.did, credentialType, time.Now().Add(50*time.Minute))}
+		member = forgeVC(r.l.ppl.authority, r.l.ppl.rogue, id.did, credentialType, time.Now().Add(50*time.Minute))
 	default:
 		return nil, "", nil, fmt.Errorf("unknown defect class %q", cls)
+	}
+	if kind == "reg" {
+		list := []any{member, registration, extra}
+		if st.str("o") == "sf" { // the holder's own credential first
+			list = []any{extra, registration, member}
+		}
+		for _, c := range list {
+			if c != nil {
+				spec.creds = append(spec.creds, c)
+			}
+		}
 	}
 	raw = forgeVP(spec)
 	if cls == "badsig" {
@@ -636,6 +656,13 @@ func (r *run) build(st step, cur, other *listed) (body []byte, raw string, sub *
 		jti = ""
 	}
 	return body, raw, &submitted{raw: raw, s: s, kind: kind, e: e, d: d, jti: jti, exp: spec.exp.Unix()}, nil
+}
+
+func orderOf(st step) string {
+	if st.str("kind") == "reg" && st.str("o") == "sf" {
+		return "sf"
+	}
+	return "mf"
 }
 
 // pollBlocking reports whether the parked poll holds the (single) database connection of the server.
@@ -743,7 +770,7 @@ func (r *run) doSubmit(st step) error {
 			errText = errText[:160]
 		}
 	}
-	r.log("submit", map[string]any{"err": errText, "s": s, "kind": st.str("kind"), "e": st.str("e"), "d": st.str("d"), "c": st.str("c"), "res": res,
+	r.log("submit", map[string]any{"err": errText, "s": s, "kind": st.str("kind"), "e": st.str("e"), "d": st.str("d"), "c": st.str("c"), "o": orderOf(st), "res": res,
 		"ts": svc.Ts, "seed": r.seedNo(svc.Seed, true), "n": len(after), "live": subjectsOf(r, liveOf(after, now))})
 	return nil
 }
@@ -873,10 +900,14 @@ func (r *run) pollSecond() error {
 	return fmt.Errorf("PollSecond while the poll is at %q", r.pollPos)
 }
 
-func (r *run) clientApply() error {
+// clientApply delivers the response. outage: the client cannot resolve DIDs while it applies it (its verifier fails for
+// every presentation), so what it adds stays unvalidated until a later validation round.
+func (r *run) clientApply(outage bool) error {
 	if r.pollPos == "q1" {
 		return fmt.Errorf("ClientApply before PollSecond")
 	}
+	r.l.cli.didres.down.Store(outage)
+	defer r.l.cli.didres.down.Store(false)
 	before, err := serviceRow(r.l.cli)
 	if err != nil {
 		return err
@@ -923,8 +954,25 @@ func (r *run) clientApply() error {
 	if !ok {
 		return nil
 	}
-	r.log("apply", map[string]any{"cts": after.Ts, "cseed": r.seedNo(after.Seed, false), "n": len(cv.rows),
+	out := 0
+	if outage {
+		out = 1
+	}
+	r.log("apply", map[string]any{"out": out, "cts": after.Ts, "cseed": r.seedNo(after.Seed, false), "n": len(cv.rows),
 		"live": subjectsOf(r, cv.live), "search": subjectsOf(r, cv.search)})
+	return nil
+}
+
+// clientValidate runs one background validation round (clientRegistrationManager.validate) with a working resolver.
+func (r *run) clientValidate() error {
+	if err := r.l.cli.module.VerifValidate(); err != nil {
+		return err
+	}
+	cv, ok := r.observeClient(time.Now().Unix())
+	if !ok {
+		return nil
+	}
+	r.log("validate", map[string]any{"n": len(cv.rows), "live": subjectsOf(r, cv.live), "search": subjectsOf(r, cv.search)})
 	return nil
 }
 
@@ -935,7 +983,7 @@ func (r *run) fullPoll() error {
 	if err := r.pollSecond(); err != nil {
 		return err
 	}
-	return r.clientApply()
+	return r.clientApply(false)
 }
 
 // ------------------------------------------------------------------------------------------ script
@@ -1026,7 +1074,10 @@ func (l *lab) runScript(in *input, sc script) *result {
 		case "PollSecond":
 			err = r.pollSecond()
 		case "ClientApply":
-			err = r.clientApply()
+			out, _ := st["out"].(bool)
+			err = r.clientApply(out)
+		case "ClientValidate":
+			err = r.clientValidate()
 		default:
 			err = fmt.Errorf("unknown action %v", st)
 		}
@@ -1054,13 +1105,13 @@ func (l *lab) runScript(in *input, sc script) *result {
 		err = r.pollSecond()
 	}
 	if err == nil && r.pollPos != "" {
-		err = r.clientApply()
+		err = r.clientApply(false)
 	}
 	for i := 0; err == nil && i < in.FinalPolls; i++ {
 		err = r.fullPoll()
 	}
 	if err == nil {
-		err = l.cli.module.VerifValidate()
+		err = r.clientValidate()
 	}
 	if err != nil {
 		res.Error = "final polls: " + err.Error()
